@@ -116,6 +116,8 @@ void cmb_resourceguard_terminate(struct cmb_resourceguard *rgp)
     cmi_hashheap_terminate((struct cmi_hashheap *)rgp);
 }
 
+static void wakeup_event_resource(void *vp, void *arg);
+
 /*
  * cmb_resourceguard_wait - Enqueue and suspend the calling process until it
  * reaches the front of the priority queue and its demand function returns true.
@@ -155,7 +157,16 @@ int64_t cmb_resourceguard_wait(struct cmb_resourceguard *rgp,
 
     /* Back here, possibly much later. Return the signal that resumed us. */
     if (sig != CMB_PROCESS_SUCCESS) {
-        cmi_hashheap_cancel((struct cmi_hashheap *)rgp, key);
+        if (!cmi_hashheap_cancel((struct cmi_hashheap *)rgp, key)) {
+            /*
+             * We had already been pulled off the queue and granted access when
+             * something else (a timeout, an interrupt) woke us up first. Make
+             * sure the wakeup call does not arrive later, and give the next
+             * process in line the chance we cannot use.
+             */
+            (void)cmb_event_pattern_cancel(wakeup_event_resource, pp, CMB_ANY_OBJECT);
+            (void)cmb_resourceguard_signal(rgp);
+        }
     }
 
     cmb_assert_debug(!cmi_hashheap_is_enqueued((struct cmi_hashheap *)rgp, key));
